@@ -251,6 +251,13 @@ R SPxSolverBase<R>::coTest(int i, typename SPxBasisBase<R>::Desc::Status stat) c
       assert(rep() == COLUMN);
       return this->maxRowObj(i) - (*theCoPvec)[i];             // slacks !
 
+   case SPxBasisBase<R>::Desc::P_FREE :
+      // a nonbasic free row (a side was changed to infinity, or the basis was set by the user or a starter): its dual
+      // multiplier has to be zero, in either direction
+      assert(rep() == COLUMN);
+      x = this->maxRowObj(i) - (*theCoPvec)[i];
+      return (x < 0) ? x : -x;
+
    default:
       return 0;
    }
@@ -690,14 +697,13 @@ void SPxSolverBase<R>::getEnterVals
 
       case SPxBasisBase<R>::Desc::P_FREE :
          assert(rep() == COLUMN);
-#if 1
-         throw SPxInternalCodeException("XENTER02 This should never happen.");
-#else
-         SPX_MSG_ERROR(std::cerr << "EENTER99 ERROR: not yet debugged!" << std::endl;)
+         enterUB = theURbound[enterIdx];
+         enterLB = theLRbound[enterIdx];
+         enterVal = 0;
          enterPric = (*theCoPvec)[enterIdx];
          enterRO = this->maxRowObj(enterIdx);
          ds.rowStatus(enterIdx) = SPxBasisBase<R>::Desc::D_UNDEFINED;
-#endif
+         enterMax = (enterRO - enterPric > 0) ? R(infinity) : R(-infinity);
          break;
 
       // dual/rowwise cases:
